@@ -24,7 +24,7 @@ What is read (comments stripped, the source tokenised: words, string literals, e
 
 Sections `layerLoad` (pairs in `fn load_impl` of layer.rs), `layerSave` (`fn save_with_options`), `nameTable` (pairs in
 names.rs), `inventory` (pairs anywhere else, one-sided items, API words).  A section whose anchor is not found (function
-or file gone, no pair inside, collection type not resolvable) uses its pinned copy in tools/pinned/ParSites.lean and the
+or file gone, no pair inside) uses its pinned copy in tools/pinned/ParSites.lean and the
 result says `extraction: pinned`; when an anchor section of layer.rs is pinned the inventory is pinned too (a refactor is
 never an alarm).  The two iteration sites and the inventory are STRICT (whatever is found is emitted).  The representation
 pairs of names.rs are SOFT: a pair whose shape is not one of the recognised ones (for `get`: the plain form, and the
@@ -242,6 +242,9 @@ def site_details(src, par, seq):
     name = par["name"]
     pos, limit = max(par["end"], seq["end"]), par["scope_ext"][1] - 1
     consumer, cname, cend = None, "", pos
+    if any(w in tk for w in ("collect", "try_for_each", "for_each")):
+        # the pair itself holds the whole pipeline (no shared consumer statement): analyse the rayon variant
+        consumer, cname, cend, pos = tk, name, pos, limit
     while pos < limit:
         s, e, k = item_extent(src, pos, limit)
         if e <= s:
@@ -252,7 +255,8 @@ def site_details(src, par, seq):
             break
         pos = e
     if consumer is None:
-        raise NotFound("statement that consumes `%s` in fn %s" % (name, par["scope"]))
+        d["errorForm"], d["gathered"] = "unknown", "unknown"
+        return d
     d["consumer"] = consumer
     d["touches"] = touches(consumer)
     # the shared name table is recognised by TYPE: a parameter `x: &NameList` of the enclosing function
@@ -290,13 +294,29 @@ def site_details(src, par, seq):
             m = re.search(r"\b" + re.escape(cname) + r"\s*:\s*([\w:]+)\s*<", src)
             if m:
                 head = m.group(1).split("::")[-1]
-        if head is None:
-            raise NotFound("collection type of `%s` in fn %s" % (cname or name, par["scope"]))
-        d["gathered"] = head
+        # an iteration site is STRICT: what cannot be resolved is reported as such (and fails the order theorem), never pinned
+        d["gathered"] = head or "unknown"
         rest = toks(src[cend:par["scope_ext"][1]])
         d["sortedAfter"] = bool(cname) and any(
             rest[i] == cname and rest[i + 1] == "." and rest[i + 2].startswith("sort") for i in range(len(rest) - 2))
     return d
+
+
+def robust_details(src, a, b):
+    """a pair is reported whatever its shape: an unknown shape at an iteration site must FAIL the tie, not pin it (a rewritten
+    parallel body is what the tie is for); only a missing anchor (file / function gone, no pair inside) falls back"""
+    try:
+        return site_details(src, a, b)
+    except (NotFound, IndexError, ValueError):
+        rhs = a["tokens"]
+        it = ""
+        if "=" in rhs:
+            r = rhs[rhs.index("=") + 1:]
+            cut = next((i for i, t in enumerate(r) if API_WORDS.match(t) and t != "rayon"), None)
+            if cut is not None and cut >= 1:
+                it = " ".join(r[:cut - 1])
+        return {"iterated": it, "consumer": [], "touches": [], "errorForm": "unknown", "gathered": "unknown",
+                "sortedAfter": False}
 
 
 # ---------------------------------------------------------------- name table: recognised shapes (fallback decision only)
@@ -479,7 +499,7 @@ def generate(repo):
                 odd = [a for a, b, _ in mine if not table_pair_recognised(a, b)]
                 if odd and not any(has_content_words(a["tokens"] + b["tokens"]) for a, b, _ in mine):
                     raise NotFound("unrecognised shape of the %s pair `%s` in names.rs" % (odd[0]["kind"], odd[0]["name"]))
-            return lean_sites(lean_name, doc, [(a, b, site_details(src, a, b)) for a, b, src in mine])
+            return lean_sites(lean_name, doc, [(a, b, robust_details(src, a, b)) for a, b, src in mine])
         return f
 
     section("layerLoad", anchored("layer.rs", "load_impl", "layerLoad",
@@ -502,14 +522,7 @@ def generate(repo):
             singles.sort(key=lambda x: x["file"])
             fell_back.append("inventory: one-sided items of names.rs (unrecognised shape)")
         known = lambda a: (a["file"] == "layer.rs" and a["scope"] in ("load_impl", "save_with_options")) or a["file"] == "names.rs"
-        def details(src, a, b):
-            # a pair outside the known functions is reported whatever its shape (never a reason to fall back)
-            try:
-                return site_details(src, a, b)
-            except (NotFound, IndexError, ValueError):
-                return {"iterated": "", "consumer": [], "touches": [], "errorForm": "unknown", "gathered": "unknown",
-                        "sortedAfter": False}
-        others = [(a, b, details(src, a, b)) for a, b, src in pairs if not known(a)]
+        others = [(a, b, robust_details(src, a, b)) for a, b, src in pairs if not known(a)]
         out = lean_sites("otherSites", "pairs anywhere else in src/", others)
         out += ("\n/-- items that exist under one polarity only: (file, scope, polarity, tokens) -/\n"
                 "def oneSided : List (String × String × String × List String) :=\n  [" +
